@@ -46,6 +46,8 @@ PROPS = {
             ('codecsim', 'A', 30000, 150, 1500000, 1800, {}),
             # thorough tier only: BLS12-381 (other field size, tags, twist)
             ('codecsim', 'A381', 0, 0, 400000, 900, {}),
+            # the 255-bit primes: Curve25519 / Tweedledum and the Edwards curve (its own point type and decoder)
+            ('codecsim', 'A255', 5000, 60, 400000, 900, {}),
         ]),
     'C08': dict(
         level='fault_enumeration',
